@@ -146,8 +146,10 @@ def main():
     exe, shim = build(src, work)
     d = os.path.join(work, "fsreplay-dir")
     found = []
-    kinds = {"remove": ["unlink"], "link": ["rename", "link", "unlink"], "soft": ["rename", "symlink", "unlink"],
-             "move": ["rename", "mkdir", "create", "copy", "unlink"]}[op]
+    # (fsync: nothing in the unchanged code syncs, a plan naming it is then a run without a fault; a change that makes an
+    # operation fail after it has taken effect - "rename, then sync the directory, return the sync's error" - is caught by it)
+    kinds = {"remove": ["unlink"], "link": ["rename", "link", "unlink", "fsync"], "soft": ["rename", "symlink", "unlink", "fsync"],
+             "move": ["rename", "mkdir", "create", "copy", "unlink", "fsync"]}[op]
     variants = [(False, False, False), (False, False, True)] if op != "move" else [(ur, dp, tn) for ur in (True, False) for dp in (False, True) for tn in ((False, True) if not dp else (False,))]
     runs = 0
     for use_rename, dpre, twonames in variants:
